@@ -77,3 +77,31 @@ namespace vp {
 // expectations may be absent).  Returns "" or a description.
 std::string match_groups(const std::vector<RecvFrame>& got, const std::vector<std::vector<Exp>>& groups);
 }
+
+#include <functional>
+namespace vp {
+// One operation of a batch: who performs it (per-client order is preserved by the
+// serialisation search), how to write it to the bus, and its effect on a model.
+struct BOp {
+  int c = -1;                                            // acting client (-1: harness action such as a clock advance; ordered with respect to everything)
+  std::function<void(Bus&)> write;
+  std::function<void(BusModel&, Out&)> apply;
+  std::string desc;
+};
+// Belief-set tracker: the set of model states (plus frames still owed to late readers) that are consistent with
+// everything observed so far.  A step is explained if some state x some admissible serialisation reproduces what
+// every reading client received, in order.
+class Belief {
+ public:
+  struct Cand { BusModel m; std::vector<std::vector<std::vector<Exp>>> pending; };
+  std::vector<Cand> cands;
+  bool overflow = false;
+  void init(const BusModel& m, int total) { cands.assign(1, Cand()); cands[0].m = m; cands[0].pending.assign(total, {}); }
+  // write ops, pump, drain the non-lazy clients, update.  Returns "" or a description of the first difference.
+  std::string step(Hist& h, const std::vector<BOp>& ops, const std::vector<bool>& lazy, int* tried = nullptr);
+  // all clients read now; some candidate must explain what had accumulated
+  std::string resume_all(Hist& h);
+  // registry queries by a fresh observer must agree with some candidate
+  std::string check_registry_any(Hist& h, const std::vector<std::string>& names);
+};
+}
